@@ -9,28 +9,44 @@ import Arrai.C06.Gen
 namespace Arrai.C07
 open Arrai.C06
 
-/-- does some set-builder call of the evaluation receive two sugar tuples of one kind at one index? -/
+/-- does some set-builder call of the evaluation receive two sugar tuples of one kind at one index, or byte tuples
+with a gap (`KF-superimposed`, `KF-bytes-holes`)? -/
 def superAt : Ex → Bool
   | .lit _ _ => false
   | .union a b =>
     superAt a || superAt b ||
       (match Impl.evalUnder id a, Impl.evalUnder id b with
-       | .ok A, .ok B => superimposed (members A ++ members B)
+       | .ok A, .ok B => (superimposed (members A ++ members B) || bytesHoles (members A ++ members B))
        | _, _ => false)
-  | .inter a b => superAt a || superAt b
-  | .diff a b => superAt a || superAt b
+  | .inter a b =>
+    superAt a || superAt b ||
+      (match Impl.evalUnder id a, Impl.evalUnder id b with
+       | .ok A, .ok B => bytesHoles ((members A).filter (fun x => Impl.memberOf x B))
+       | _, _ => false)
+  | .diff a b =>
+    superAt a || superAt b ||
+      (match Impl.evalUnder id a, Impl.evalUnder id b with
+       | .ok A, .ok B => bytesHoles ((members A).filter (fun x => !Impl.memberOf x B))
+       | _, _ => false)
   | .map a f =>
     superAt a || (match Impl.evalUnder id a with
-      | .ok A => superimposed ((members A).map f.apply)
+      | .ok A => superimposed ((members A).map f.apply) || bytesHoles ((members A).map f.apply)
       | .err => false)
-  | .filter a _ => superAt a
+  | .filter a p =>
+    superAt a || (match Impl.evalUnder id a with
+      | .ok A => bytesHoles ((members A).filter p.apply)
+      | .err => false)
   | .orderby a _ => superAt a
   | .with_ a e =>
     superAt a || superAt e ||
       (match Impl.evalUnder id a, Impl.evalUnder id e with
-       | .ok A, .ok x => superimposed (members A ++ [x])
+       | .ok A, .ok x => superimposed (members A ++ [x]) || bytesHoles (members A ++ [x])
        | _, _ => false)
-  | .without a e => superAt a || superAt e
+  | .without a e =>
+    superAt a || superAt e ||
+      (match Impl.evalUnder id a, Impl.evalUnder id e with
+       | .ok A, .ok x => bytesHoles ((members A).filter (fun y => !C06.Impl.equal y x))
+       | _, _ => false)
   | .count a => superAt a
   | .single a => superAt a
 
